@@ -572,10 +572,8 @@ Proof.
     + eapply (prod_move_invS s i p (PLoad 1) (enq s)); eauto.
       intros [_ [X|[o X]]]; rewrite Hpp in X; discriminate.
     + constructor; simpl; auto.
-      * intros A B; discriminate.
       * intros i0 p0 Hn0. apply (all_set_prod (fun p => pk p = KStopper -> pn p = 1) _ _ _ _ _ Hn0); eauto.
         simpl. intros Hkk. eapply Hsp; eauto.
-      * intros i0 p0 Hn0 _. now right.
       * intros _. destruct (registered s) eqn:Hr.
         -- right. right. exists i, (with_pp p (PLoad 0)). split.
            ++ eapply nth_set_nth_eq; eauto.
@@ -594,7 +592,6 @@ Proof.
       * right. rewrite Hpp. reflexivity.
       * intros _ X. congruence.
       * intros [Hkp _]. right. apply in_or_app. right. unfold item_of. rewrite Hkp. now left.
-      * destruct (inactive s); reflexivity.
     + inversion H; subst; clear H.
       eapply (prod_move_invS s i p (PCas j (head_ptr s)) (enq s)); eauto.
       * intros Hkp. destruct (Hk _ _ Hn Hkp) as [X|X]; [congruence|auto].
